@@ -35,8 +35,12 @@ RULE = ("Part A: (scenario, side in {acceptor, requestor, both}, raise mask, han
         "direction: loopback ports, thread ids and timestamps do not appear in PDUs, message ids are the API "
         "defaults); interleaving BETWEEN the two directions and between the two threads of one association is not "
         "compared (per-direction PDU sequences, per-event-name notification projections).  A component of the "
-        "observation is compared only if it was identical in the 3 baseline runs; a difference counts only if it "
-        "reproduces after re-running baseline and variant.  distinct = (scenario, side, mask, kind, exception "
+        "observation is compared only if it was identical in the 3 baseline runs; a difference counts only if (1) it "
+        "reproduces in 3 further rounds of (baseline re-run still equal, variant re-run differs in the same class) and "
+        "(2) a timing control - the same handlers raising the same exceptions at the same invocations but catching them "
+        "themselves - does NOT show it (otherwise the scenario is timing-sensitive there and the difference is only "
+        "counted).  For 'all'/'random' masks the raising event is localised by re-running with one event at a time.  "
+        "distinct = (scenario, side, mask, kind, exception "
         "class); non-trivial = at least one handler invocation really raised in the variant run.  "
         "Part B: (intervention event, raise shape, exception class) -> one association with a raising handler; "
         "non-trivial = the handler was entered and raised.")
@@ -527,7 +531,7 @@ def _mask_specs(tier, seed, scn_name, side):
         for ev in r.sample(FREQUENT, 2):
             specs.append({"t": "each", "ev": ev, "max": 3})
     else:
-        specs += [{"t": "random", "n": i, "p": (0.1, 0.25, 0.5)[i % 3]} for i in range(12)]
+        specs += [{"t": "random", "n": i, "p": (0.05, 0.1, 0.25, 0.5)[i % 4]} for i in range(32)]
         for ev in FREQUENT:
             specs.append({"t": "each", "ev": ev, "max": 40})
     return specs
